@@ -27,11 +27,23 @@ def modelMsg (impl : String) (b : Bytes) : Obs :=
 def specMsgLine (impl : String) (b : Bytes) : Obs :=
   if b.status < 128 then [0] else 1 :: specMsg b (impl == "str")
 
-def blkDigest (f : Bytes → Obs) (s : Nat) : UInt64 := Id.run do
+/-- cell subsets of a `msg` observation that belong to one property (`all` = everything).
+    Observations of length ≤ 1 (rejected bytes, panics) are always kept whole. -/
+def maskKeeps (mask : String) (i : Nat) : Bool :=
+  match mask with
+  | "c01" => i < 7 || (23 ≤ i && i < 34)
+  | "c02" => 7 ≤ i && i < 27
+  | _ => true
+
+def maskCells (mask : String) (o : Obs) : Obs :=
+  if o.length ≤ 1 || mask == "all" then o
+  else (o.zipIdx.filter (fun p => maskKeeps mask p.2)).map (·.1)
+
+def blkDigest (mask : String) (f : Bytes → Obs) (s : Nat) : UInt64 := Id.run do
   let mut h := fnvInit
   for d1 in [0:128] do
     for d2 in [0:128] do
-      h := digest h (f ⟨s, d1, d2⟩)
+      h := digest h (maskCells mask (f ⟨s, d1, d2⟩))
   return h
 
 end Midi.Driver
